@@ -17,6 +17,7 @@ import (
 	"github.com/pokt-network/posmint/crypto"
 	"github.com/pokt-network/posmint/crypto/keys"
 	sdk "github.com/pokt-network/posmint/types"
+	"github.com/pokt-network/posmint/x/auth"
 
 	"verif/harness/internal/common"
 )
@@ -60,6 +61,18 @@ type node struct {
 	kids []*node
 	kind byte // 'L','M' for keys; 's','S','g','e' for sigs
 	msg  int
+}
+
+// Leaf: a plain key
+func (n *node) Leaf() bool { return n.kind == 'L' }
+
+// Count: the number of keys below this key, at any depth
+func (n *node) Count() int {
+	c := 0
+	for _, k := range n.kids {
+		c += 1 + k.Count()
+	}
+	return c
 }
 
 func genPK(r *rand.Rand, depth int) *node {
@@ -271,6 +284,13 @@ func (f *Fam) Gen(r *rand.Rand, i int) string {
 		if r.Intn(12) == 0 { // a signature for an unrelated key tree
 			sg = signTree(genPK(r, 2), msg)
 		}
+		if r.Intn(6) == 0 { // the ante handler's signature-depth count on a multisignature key, limits around its size
+			for pk.Leaf() {
+				pk = genPK(r, 3)
+			}
+			n := pk.Count() // keys below the outer key
+			return fmt.Sprintf("depth %d %s", []int{0, 1, n - 1, n, n + 1, n + 2, 7}[r.Intn(7)]+0, pk)
+		}
 		return fmt.Sprintf("ms %s %d %s", pk, msg, sg)
 	}
 	pass := func() string { return passes[r.Intn(len(passes))] }
@@ -353,6 +373,17 @@ func (f *Fam) Exec(op string) (obs string, fails []common.Failure) {
 		if ok != want {
 			fail("multisig-iff", "C19:multisig-verify", fmt.Sprintf("%s: VerifyBytes=%v, every key signed in its own position=%v", op, ok, want))
 		}
+		return strconv.FormatBool(ok), fails
+	case "depth": // auth.ValidateSignatureDepth(limit, key)
+		limit, _ := strconv.Atoi(w[1])
+		pkT := parseTree(w[2])
+		mk, isMulti := buildPK(pkT).(crypto.PublicKeyMultiSig)
+		if !isMulti || limit < 0 {
+			return "bad-op", nil
+		}
+		ok := auth.ValidateSignatureDepth(uint64(limit), mk)
+		// (the signature limit is part of the ante handler's decision, not of a property statement: the answer is
+		// compared with the Lean model's recursive count, for which `validDepth_iff` proves the closed form)
 		return strconv.FormatBool(ok), fails
 	case "kb.new":
 		f.kb = keys.NewInMemory()
